@@ -239,6 +239,18 @@ def rule_wake(ctx):
     for q, s in sig.items():
         steps = tuple(x for x in s[0] if x not in ())
         ctx.ob('C10.wake', f'{m.name}:{q}:protocol', (steps, s[1]) == ref, f'{q} wake-up protocol {s} differs from the common one {ref}', m.functions[q].node, m)
+    # what `update` installs: NRT stores the scheduled time unconditionally (a late task sees the time it was scheduled for,
+    # as in RT, where the store is skipped only inside an awake call)
+    mm = ctx.repo.module('sc3.base.main')
+    u = mm.classes['NrtMain'].methods['_update_logical_time']
+    b = [norm(x) for x in U.body_nodoc(u.node)]
+    ctx.ob('C10.wake', f'{u.fq}:stores-scheduled-time', b == [f'cls.main_tt._m_seconds = {u.params[1]}'],
+           f'NRT _update_logical_time must be the plain store of its argument; found {b}: a clamped, rounded or conditional store gives '
+           f'late tasks a different logical time than the RT clocks do', u.node, mm)
+    ur = mm.classes['RtMain'].methods['_update_logical_time']
+    b = [norm(x) for x in U.body_nodoc(ur.node)]
+    ctx.ob('C10.wake', f'{ur.fq}:stores-scheduled-time', b == [f'with cls._main_lock: if not cls._in_awake_call: cls.main_tt._m_seconds = {ur.params[1]}'],
+           f'RT _update_logical_time stores its argument under the main lock unless a task is being awakened; found {b}', ur.node, mm)
     # the NRT loop pops in time order and hands the queued time
     r = m.functions['ClockScheduler.run']
     ctx.ob('C10.wake', f'{r.fq}', 'while not self.queue.empty(): time, clock_task = self.queue.pop() clock_task._wakeup(time)' in full(r.node),
@@ -428,6 +440,9 @@ def run(ctx):
 
 
 MUTANTS = [
+    dict(rule='C10.wake', name='NRT logical time clamped to be monotonic (seed C10-c)', file='sc3/base/main.py',
+         old="        # In nrt physical time and logical time are the same.\n        cls.main_tt._m_seconds = seconds",
+         new="        if seconds > cls.main_tt._m_seconds:\n            cls.main_tt._m_seconds = seconds"),
     dict(rule='C10.mode', name='(fix reverted) SystemClock.clear does nothing in NRT', file='sc3/base/clock.py',
          old="            _libsc3.main._clock_scheduler.clear(cls)\n            return\n        with cls._sched_cond:", new="            return\n        with cls._sched_cond:"),
     dict(rule='C10.mode', name='NRT clear drops every clock\'s tasks', file='sc3/base/clock.py',
